@@ -232,9 +232,13 @@ def plain_records(v):
     if isinstance(v, tuple):
         return ['tuple', [plain_records(x) for x in v]]
     if isinstance(v, dict):
+        if any(not isinstance(k, str) for k in v):
+            return ['map', [[plain_records(k), plain_records(x)] for k, x in v.items()]]       # keys that are not strings stay what they are
         return {k: plain_records(x) for k, x in v.items()}
     if isinstance(v, list):
         return [plain_records(x) for x in v]
+    if isinstance(v, float) and v != v or v in (float('inf'), float('-inf')):
+        return ['float', repr(v)]
     return v
 
 
@@ -338,6 +342,15 @@ def _log_record(rec):
             os.close(fd)
 
 
+def _save_record(task, rec, record):
+    """task.save_to_run_info(record); a refusal of a legal record is noted for the monitors before it propagates"""
+    try:
+        task.save_to_run_info(record)
+    except BaseException as e:  # noqa
+        _log_record(dict(rec, phase='run_info_error', error=f'{type(e).__name__}: {e}'[:200], record=repr(record)[:120]))
+        raise
+
+
 def lab_run(task, spec, args):
     full = task.fullname
     STATE['uid'] += 1
@@ -402,25 +415,26 @@ def lab_run(task, spec, args):
     _th = _threading.Thread(target=lambda: task.logger.info(f'LABMSG uid={uid} n=1b task={full}'))
     _th.start()
     _th.join()
-    task.save_to_run_info({'lab_uid': uid, 'n': 1})
-    task.save_to_run_info(0)        # falsy records are records too
-    task.save_to_run_info({})
+    _save_record(task, rec, {'lab_uid': uid, 'n': 1})
+    _save_record(task, rec, 0)        # falsy records are records too
+    _save_record(task, rec, {})
     # statistics as they come out of numpy, a location, a shape: records are python objects, not only JSON-like data
-    task.save_to_run_info({'lab_uid': uid, 'mean': np.float64(0.25), 'count': np.int64(7), 'where': Path('out') / 'x', 'shape': (2, 3)})
+    _save_record(task, rec, {'lab_uid': uid, 'mean': np.float64(0.25), 'count': np.int64(7), 'where': Path('out') / 'x', 'shape': (2, 3),
+                                 'hist': {3: 1, 12: 2}, 'best': float('inf')})
     # a counter object recorded, updated and recorded again (each record shows the state at the moment it was added)
     from collections import defaultdict as _dd
     progress = _dd(int)
     progress['lab_uid'] = uid
     progress['done'] = 1
-    task.save_to_run_info(progress)
+    _save_record(task, rec, progress)
     progress['done'] = 2
     progress['more'] += 5
-    task.save_to_run_info(progress)
+    _save_record(task, rec, progress)
     if fault_kind == 'raise_after_log':
         _log_record(dict(rec, phase='fault'))
         raise LabFault(f'{full} fault raise_after_log uid={uid}')
     task.logger.warning(f'LABMSG uid={uid} n=2 task={full}')
-    task.save_to_run_info({'lab_uid': uid, 'n': 2})
+    _save_record(task, rec, {'lab_uid': uid, 'n': 2})
     kind = spec['data_kind']
     _log_record(dict(rec, phase='end'))
     if fault_kind == 'bad_type':
